@@ -371,6 +371,7 @@ NameSet = z3.ArraySort(Name, B)
 MemName, AX_MEMNAME = _T.mem_theory(LNm, "nm")
 SortedNames = z3.Function("SortedNames", NameSet, LNm.sort())      # sorted(<set of names>): the elements in ascending string order
 change_of = z3.Function("pn_change", PNode, TOpt(TName).sort())    # node attribute `change` (None for places)
+up_of = z3.Function("pn_direction_is_up", PNode, B)                # node attribute `direction` == "up" (transitions)
 _ns, _nk = z3.Const("s!sn", NameSet), z3.Const("k!sn", Name)
 _ia, _ib = z3.Int("a!sn"), z3.Int("b!sn")
 AX_SORTED = [
